@@ -930,14 +930,21 @@ class Memory(Expression):
         self.fmt = fmt
         self.address = address
 
+    def atomic_add(self):
+        """can this be the target of an atomic add?
+
+        The size needs to fit, and the kernel does not allow atomic
+        operations on packet data (which is based on register 9)."""
+        return self.fmt in "qQiIx" and not self.address.contains(9)
+
     def __iadd__(self, value):
-        if self.fmt in "qQiIx":
+        if self.atomic_add():
             return IAdd(self.ebpf, value)
         else:
             return NotImplemented
 
     def __isub__(self, value):
-        if self.fmt in "qQiIx":
+        if self.atomic_add():
             return IAdd(self.ebpf, -value)
         else:
             return NotImplemented
